@@ -32,46 +32,94 @@ pub mod aes_gcm { pub mod aead { pub use super::super::aead::Error; } }
 #[verifier::external_body]
 pub struct InvalidLength { _e: u8 }
 
+/// RustCrypto AEAD cipher values: only the key they were built from matters (the algorithm is the type)
+pub trait KeyLen { spec fn klen() -> nat; }
 #[verifier::external_body]
-pub struct CipherMethod { _x: u8 }
-impl CipherMethod {
-    pub uninterp spec fn alg(&self) -> int;
+#[verifier::reject_recursive_types(T)]
+pub struct Key<T> { _p: core::marker::PhantomData<T> }
+impl<T: KeyLen> Key<T> {
+    pub uninterp spec fn bytes(&self) -> Seq<u8>;
+    /// GenericArray::from_slice panics unless the slice has exactly the key length
+    #[verifier::external_body]
+    pub fn from_slice(s: &[u8]) -> (r: &Key<T>)
+        requires s@.len() == T::klen()
+        ensures r.bytes() == s@
+    { unimplemented!() }
+}
+#[verifier::external_body]
+pub struct Aes256Gcm { _c: u8 }
+impl KeyLen for Aes256Gcm { open spec fn klen() -> nat { 32 } }
+impl Aes256Gcm {
     pub uninterp spec fn key(&self) -> Seq<u8>;
-    pub open spec fn nonce_len(&self) -> nat { 12 }
+    #[verifier::external_body]
+    pub fn new(k: &Key<Aes256Gcm>) -> (r: Aes256Gcm) ensures r.key() == k.bytes() { unimplemented!() }
+}
+#[verifier::external_body]
+pub struct ChaCha8Poly1305 { _c: u8 }
+impl KeyLen for ChaCha8Poly1305 { open spec fn klen() -> nat { 32 } }
+impl ChaCha8Poly1305 {
+    pub uninterp spec fn key(&self) -> Seq<u8>;
+    #[verifier::external_body]
+    pub fn new(k: &Key<ChaCha8Poly1305>) -> (r: ChaCha8Poly1305) ensures r.key() == k.bytes() { unimplemented!() }
+}
+#[verifier::external_body]
+pub struct ChaCha20Poly1305 { _c: u8 }
+impl KeyLen for ChaCha20Poly1305 { open spec fn klen() -> nat { 32 } }
+impl ChaCha20Poly1305 {
+    pub uninterp spec fn key(&self) -> Seq<u8>;
+    #[verifier::external_body]
+    pub fn new(k: &Key<ChaCha20Poly1305>) -> (r: ChaCha20Poly1305) ensures r.key() == k.bytes() { unimplemented!() }
+}
+#[verifier::external_body]
+pub struct XChaCha8Poly1305 { _c: u8 }
+impl KeyLen for XChaCha8Poly1305 { open spec fn klen() -> nat { 32 } }
+impl XChaCha8Poly1305 {
+    pub uninterp spec fn key(&self) -> Seq<u8>;
+    #[verifier::external_body]
+    pub fn new(k: &Key<XChaCha8Poly1305>) -> (r: XChaCha8Poly1305) ensures r.key() == k.bytes() { unimplemented!() }
+}
+#[verifier::external_body]
+pub struct XChaCha20Poly1305 { _c: u8 }
+impl KeyLen for XChaCha20Poly1305 { open spec fn klen() -> nat { 32 } }
+impl XChaCha20Poly1305 {
+    pub uninterp spec fn key(&self) -> Seq<u8>;
+    #[verifier::external_body]
+    pub fn new(k: &Key<XChaCha20Poly1305>) -> (r: XChaCha20Poly1305) ensures r.key() == k.bytes() { unimplemented!() }
+}
 
+
+// ---- aes_gcm::Aes128Gcm used directly (header sealing): AES-128-GCM = alg 0 of shims/crypto.rs
+pub struct GNonce { pub b: [u8; 12] }
+impl View for GNonce { type V = Seq<u8>; open spec fn view(&self) -> Seq<u8> { self.b@ } }
+impl vstd::std_specs::convert::FromSpecImpl<[u8; 12]> for GNonce {
+    open spec fn obeys_from_spec() -> bool { true }
+    open spec fn from_spec(v: [u8; 12]) -> Self { GNonce { b: v } }
+}
+impl core::convert::From<[u8; 12]> for GNonce {
+    fn from(v: [u8; 12]) -> (r: GNonce) { GNonce { b: v } }
+}
+pub struct Payload<'a, 'b> { pub msg: &'a [u8], pub aad: &'b [u8] }
+#[verifier::external_body]
+pub struct Aes128Gcm { _c: u8 }
+impl KeyLen for Aes128Gcm { open spec fn klen() -> nat { 16 } }
+impl Aes128Gcm {
+    pub uninterp spec fn key(&self) -> Seq<u8>;
     #[verifier::external_body]
-    pub fn encrypt_in_place<B: Buffer>(&self, nonce: &[u8], associated_data: &[u8], plaintext: &mut B) -> (r: Result<(), aead::Error>)
-        requires nonce@.len() == self.nonce_len()
-        ensures r is Ok ==> final(plaintext).bview() == aead_seal(self.alg(), self.key(), nonce@, norm_aad(associated_data@), old(plaintext).bview())
+    pub fn new(k: &Key<Aes128Gcm>) -> (r: Aes128Gcm) ensures r.key() == k.bytes() { unimplemented!() }
+    #[verifier::external_body]
+    pub fn new_from_slice(key: &[u8]) -> (r: Result<Aes128Gcm, InvalidLength>)
+        ensures (key@.len() == 16) == (r is Ok), r matches Ok(c) ==> c.key() == key@
     { unimplemented!() }
     #[verifier::external_body]
-    pub fn decrypt_in_place<B: Buffer>(&self, nonce: &[u8], associated_data: &[u8], ciphertext: &mut B) -> (r: Result<(), aead::Error>)
-        requires nonce@.len() == self.nonce_len()
-        ensures match aead_open(self.alg(), self.key(), nonce@, norm_aad(associated_data@), old(ciphertext).bview()) {
-            Some(p) => r is Ok && final(ciphertext).bview() == p,
-            None => r is Err,
-        }
-    { unimplemented!() }
-    /// seals plaintext[..len-16] and writes the tag into the last 16 bytes
-    #[verifier::external_body]
-    pub fn encrypt_in_place_detached(&self, nonce: &[u8], associated_data: &[u8], plaintext: &mut [u8]) -> (r: Result<(), aead::Error>)
-        requires nonce@.len() == self.nonce_len(), old(plaintext)@.len() >= 16
-        ensures final(plaintext)@.len() == old(plaintext)@.len(),
-            r is Ok ==> final(plaintext)@ == aead_seal(self.alg(), self.key(), nonce@, norm_aad(associated_data@), old(plaintext)@.take(old(plaintext)@.len() - 16))
+    pub fn encrypt(&self, nonce: &GNonce, p: Payload) -> (r: Result<Vec<u8>, aead::Error>)
+        ensures r matches Ok(v) ==> v@ == aead_seal(0, self.key(), nonce@, norm_aad(p.aad@), p.msg@)
     { unimplemented!() }
     #[verifier::external_body]
-    pub fn decrypt_in_place_detached(&self, nonce: &[u8], associated_data: &[u8], ciphertext: &mut [u8]) -> (r: Result<(), aead::Error>)
-        requires nonce@.len() == self.nonce_len(), old(ciphertext)@.len() >= 16
-        ensures final(ciphertext)@.len() == old(ciphertext)@.len(),
-            match aead_open(self.alg(), self.key(), nonce@, norm_aad(associated_data@), old(ciphertext)@) {
-                Some(p) => r is Ok && final(ciphertext)@.take(old(ciphertext)@.len() - 16) == p,
-                None => r is Err,
-            }
+    pub fn decrypt(&self, nonce: &GNonce, p: Payload) -> (r: Result<Vec<u8>, aead::Error>)
+        ensures match aead_open(0, self.key(), nonce@, norm_aad(p.aad@), p.msg@) { Some(pt) => r matches Ok(v) && v@ == pt, None => r is Err }
     { unimplemented!() }
     #[verifier::external_body]
-    pub const fn nonce_size(&self) -> (r: usize) ensures r == self.nonce_len() { unimplemented!() }
-    #[verifier::external_body]
-    pub const fn tag_size(&self) -> (r: usize) ensures r == 16 { unimplemented!() }
-    #[verifier::external_body]
-    pub const fn ciphertext_overhead(&self) -> (r: usize) ensures r == 0 { unimplemented!() }
+    pub fn decrypt_in_place<B: Buffer>(&self, nonce: &GNonce, associated_data: &[u8], buffer: &mut B) -> (r: Result<(), aead::Error>)
+        ensures match aead_open(0, self.key(), nonce@, norm_aad(associated_data@), old(buffer).bview()) { Some(pt) => r is Ok && final(buffer).bview() == pt, None => r is Err }
+    { unimplemented!() }
 }
